@@ -190,6 +190,7 @@ func (x *ChanPubSub[C, V]) Send(value V) (sent int) {
 	defer func() {
 		if !skipSendingUnlock {
 			x.sendingMu.Unlock()
+			verifAt("cps.after.unlocked1", nil, 0)
 		}
 	}()
 
@@ -219,9 +220,11 @@ func (x *ChanPubSub[C, V]) Send(value V) (sent int) {
 
 	// ping! (send to channel)
 	sent = x.ping.Send(value) // N.B. supports concurrent decrements
+	verifAt("cps.after.passed1", nil, 0)
 
 	skipSendingUnlock = true
 	x.sendingMu.Unlock() // we can add subscribers while waiting for pongs
+	verifAt("cps.after.unlocked2", nil, 0)
 
 	// pong! (await appropriate number of calls to Wait)
 	if sent != 0 {
@@ -240,6 +243,7 @@ func (x *ChanPubSub[C, V]) Send(value V) (sent int) {
 		for x.pongN != 0 {
 			verifAt("cps.send.pong.wait", x, 0)
 			x.pongC.Wait()
+			verifAt("cps.after.woke1", nil, 0)
 			x.checkBroken() // ALWAYS checkBroken after a wait
 		}
 	}
@@ -313,6 +317,7 @@ func (x *ChanPubSub[C, V]) Add(delta int) (subscribers int) {
 		subscribers = x.addSubscribers(delta)
 		if ok {
 			x.sendingMu.RUnlock() // unlock, before possible panics
+			verifAt("cps.after.unlocked3", nil, 0)
 		}
 		x.sanityCheckSubscribersDelta(subscribers, delta)
 		if !ok {
@@ -325,6 +330,7 @@ func (x *ChanPubSub[C, V]) Add(delta int) (subscribers int) {
 			}()
 			// WARNING: Relies on the caller ensuring no concurrent receives.
 			x.ping.Add(delta)
+			verifAt("cps.after.passed2", nil, 0)
 			success = true
 		}
 
@@ -360,6 +366,7 @@ func (x *ChanPubSub[C, V]) Wait() {
 	for x.pongN == 0 {
 		verifAt("cps.wait.wait", x, 0)
 		x.pongC.Wait()
+		verifAt("cps.after.woke2", nil, 0)
 		x.checkBroken() // ALWAYS checkBroken after a wait
 	}
 
